@@ -20,7 +20,7 @@ from .values import (ARG, CLS, FRESH, GLOBAL, IMM, RECV, USER, BoundV, ClassV,
 
 from .common import *  # noqa: F401,F403
 from .common import BUILTIN_EXC, FALSE, MUTATING_METHODS, NONE, PURE_METHODS, RAISING_METHODS, TRUE, Config, Frame, Outcome
-from .exprs import ExprMixin
+from .exprs import ExprMixin, _as_load
 from .calls import CallMixin
 
 
@@ -54,7 +54,8 @@ class Interp(ExprMixin, CallMixin):
         fv = FuncV(fi, env_addr)
         self._stack = []
         self.depth = 0
-        return self.call_function(st, fv, list(args), dict(kwargs or {}), None, None, cls_ctx=cls_ctx or fi.cls)
+        with self.pinned(list(args), list((kwargs or {}).values())):
+            return self.call_function(st, fv, list(args), dict(kwargs or {}), None, None, cls_ctx=cls_ctx or fi.cls)
 
     def sym_class(self, tok):
         """In-repo class of an opaque object, if the scenario declares one."""
